@@ -318,6 +318,7 @@ def c01c(prog, rep):
 # =========================================================================== C07
 
 def check_c07(prog, rep, tier, cfg):
+    merge_key_is_the_whole_line(prog, rep, "C07.k")
     R = "C07.a"
     ft = LANG + "FormattedTokens"
     # single door to &mut Token
@@ -1098,6 +1099,43 @@ def documented_normalisations(prog, rep, R):
     check_c01f(prog, rep, R)
     import strings
     strings.skip_discipline(prog, rep, R)
+
+
+def merge_key_is_the_whole_line(prog, rep, R):
+    """C07.k — "the instruction lines of asm blocks are emitted byte for byte": the lines that the conditional-directive passes produce are
+    merged by value in consolidate_pass_lines (a hash map keyed by the line).  Two passes that reach the same tokens with a different
+    line type (a statement in the `begin` branch, an asm instruction in the `asm` branch) have produced two different lines, and both
+    must survive: the asm-typed one is what IgnoreAsmInstructions marks.  Equality and hash of the key type therefore look at every field
+    of the line — a key that leaves out the line type keeps the first-seen version only."""
+    cp = prog.body("pasfmt_core::defaults::parser::consolidate_pass_lines")
+    if not rep.check(cp is not None, R, "anchor:consolidate_pass_lines", "consolidate_pass_lines not found"):
+        return
+    key = None
+    for l in cp.locals[1:cp.arg_count + 1]:
+        m = re.search(r"HashMap<([\w:]+)", l["ty"])
+        if m:
+            key = norm(m.group(1))
+    adt = prog.local_adts.get(key or "")
+    if not rep.check(adt is not None, R, "anchor:merge-key-type", "the key type of the map consolidate_pass_lines merges lines in was not found (%s)" % key):
+        return
+    fields = [f["name"] for v in adt["variants"] for f in v.get("fields", [])]
+    bad = []
+    for trait, fn in (("core::cmp::PartialEq", "eq"), ("core::hash::Hash", "hash")):
+        n = "<%s as %s>::%s" % (key, trait, fn)
+        b = prog.body(n)
+        if b is None:
+            bad.append("%s::%s of %s not found" % (trait.split("::")[-1], fn, short(key)))
+            continue
+        fam = {n} | {x.npath for x in prog.closures_of(n)}
+        for f in fields:
+            acc = [a for a in prog.field_accesses(key, f, within=fam) if a[3] in ("read", "ref")]
+            need = 2 if fn == "eq" else 1
+            if len(acc) < need:
+                bad.append("%s does not look at `%s`" % (fn, f))
+    rep.check(not bad, R, "merge-key=every-field-of-the-line",
+              "lines of different conditional-directive passes are merged by a key that is not the whole line: %s — two passes that type the same tokens differently (statement / asm instruction) "
+              "are collapsed into the first-seen line, and the asm instruction is then formatted as Pascal" % bad[:3],
+              where="%s:%d" % (adt["loc"]["file"], adt["loc"]["line"]), instance={"key": short(key), "fields": fields, "deviations": bad[:4]})
 
 
 def normaliser_values(prog, rep, R):
